@@ -12,6 +12,8 @@ Cmp(name, r, want) == IF r.exc # "" THEN "bad:" \o name \o ":exception:" \o r.ex
 Pick(rs) == IF \E i \in 1..Len(rs) : rs[i] # ""
             THEN rs[CHOOSE i \in 1..Len(rs) : rs[i] # "" /\ \A j \in 1..(i - 1) : rs[j] = ""] ELSE ""
 First(rs) == IF Pick(rs) = "" THEN "ok" ELSE Pick(rs)
+\* a coefficient list in normal form: entries in 0..p-1, no trailing zero
+WellFormed(f, p) == (\A i \in 1..Len(f) : f[i] \in 0..(p - 1)) /\ (Len(f) > 0 => f[Len(f)] # 0)
 Distinct(fs) == \A i \in 1..Len(fs) : \A j \in 1..Len(fs) : i # j => fs[i].c # fs[j].c
 AsFac(cs) == [i \in 1..Len(cs) |-> [c |-> cs[i], m |-> 1]]
 
@@ -42,16 +44,19 @@ CheckEv(e) ==
              \* square-free decomposition: product of f_i^i times lc = a, parts square-free
              sqfOK == IF Len(a) = 0 THEN "" ELSE IF r.sqfe # "" THEN "bad:sqf:exception:" \o r.sqfe
                       ELSE IF (r.issqf = 1) # SquareFree(a, p) THEN "bad:is_sqf"
+                      ELSE IF \E i \in 1..Len(r.sqf) : ~WellFormed(r.sqf[i].c, p) \/ r.sqf[i].m < 1 THEN "bad:sqf_list:not-normalised"
                       ELSE IF Scale(ProdPow(r.sqf, 1, p), lcA, p) # a THEN "bad:sqf_list:product"
                       ELSE IF \E i \in 1..Len(r.sqf) : Len(r.sqf[i].c) >= 2 /\ ~SquareFree(r.sqf[i].c, p) THEN "bad:sqf_list:part-not-square-free"
                       ELSE ""
              facOK == IF Len(a) = 0 THEN "" ELSE IF r.face # "" THEN "bad:factor:exception:" \o r.face
                       ELSE IF r.faclc # lcA THEN "bad:factor:lc"
+                      ELSE IF \E i \in 1..Len(r.fac) : ~WellFormed(r.fac[i].c, p) \/ r.fac[i].m < 1 THEN "bad:factor:not-normalised"
                       ELSE IF Scale(ProdPow(r.fac, 1, p), lcA, p) # a THEN "bad:factor:product"
                       ELSE IF \E i \in 1..Len(r.fac) : ~Irreducible(r.fac[i].c, p) \/ r.fac[i].c[Len(r.fac[i].c)] # 1 THEN "bad:factor:not-monic-irreducible"
                       ELSE IF ~Distinct(r.fac) THEN "bad:factor:repeated" ELSE ""
              algOK(runs, name) ==
-                      IF \E i \in 1..Len(runs) :
+                      IF \E i \in 1..Len(runs) : \E j \in 1..Len(runs[i]) : ~WellFormed(runs[i][j], p) THEN "bad:" \o name \o ":not-normalised"
+                      ELSE IF \E i \in 1..Len(runs) :
                             \/ ProdPow(AsFac(runs[i]), 1, p) # GMonic(a, p)
                             \/ \E j \in 1..Len(runs[i]) : ~Irreducible(runs[i][j], p)
                       THEN "bad:" \o name ELSE ""
